@@ -5,22 +5,26 @@
 //! paths.  The callback may delay, yield or log; it never decides anything.
 //! With the feature disabled this module does not exist and every call site
 //! of [`point`] is compiled out.
-use core::sync::atomic::{AtomicUsize, Ordering};
+use core::sync::atomic::{AtomicPtr, Ordering};
 
-static HOOK: AtomicUsize = AtomicUsize::new(0);
+// (a pointer rather than an integer, so that the function pointer keeps its provenance)
+static HOOK: AtomicPtr<()> = AtomicPtr::new(core::ptr::null_mut());
 
 /// Installs (or removes) the process-wide yield-point callback.
 pub fn set_hook(hook: Option<fn(u32)>) {
-    HOOK.store(hook.map(|f| f as usize).unwrap_or(0), Ordering::SeqCst);
+    HOOK.store(
+        hook.map(|f| f as *mut ()).unwrap_or(core::ptr::null_mut()),
+        Ordering::SeqCst,
+    );
 }
 
 /// A yield point. No-op unless a hook is installed.
 #[inline]
 pub fn point(site: u32) {
     let hook = HOOK.load(Ordering::Relaxed);
-    if hook != 0 {
-        // safety: the only non-zero values ever stored are `fn(u32)` pointers.
-        let f: fn(u32) = unsafe { core::mem::transmute::<usize, fn(u32)>(hook) };
+    if !hook.is_null() {
+        // safety: the only non-null values ever stored are `fn(u32)` pointers.
+        let f: fn(u32) = unsafe { core::mem::transmute::<*mut (), fn(u32)>(hook) };
         f(site);
     }
 }
